@@ -214,7 +214,7 @@ class HLB(Harness):
         # ------------------------------------------------------------------------------- C19 / C04 record block
         did_poll = ev["poll"] is not None
         if did_poll or fin:
-            need = ["u", "x", "yval", "fval", "fsd", "mesh_size", "search_mesh_size", "func_count"]
+            need = ["u", "x", "yval", "fval", "fsd", "mesh_size", "func_count"]     # the fields the property speaks about
             out.ob("record_all_fields", all(k in rec for k in need))
             if all(k in rec for k in need):
                 out.ob("record_at_current_iteration", O.And(*[O.eq(rec[k][1], it, 0.0) for k in need]))
